@@ -275,7 +275,9 @@ func (dec *Decoder) decodeMB(tokenBR *bitio.BoolReader) error {
 	}
 
 	if !skip {
-		dec.parseResiduals(mb, left, block, tokenBR)
+		// A macroblock whose blocks all turn out empty is treated as skipped by the
+		// loop filter (RFC 6386 section 15, libwebp VP8DecodeMB).
+		skip = dec.parseResiduals(mb, left, block, tokenBR)
 	} else {
 		left.Nz = 0
 		mb.Nz = 0
@@ -310,7 +312,8 @@ func b2i(b bool) int {
 }
 
 // parseResiduals decodes all residual coefficients for one macroblock.
-func (dec *Decoder) parseResiduals(mb, leftMB *MB, block *MBData, tokenBR *bitio.BoolReader) {
+// It reports whether the macroblock has no non-zero coefficient at all.
+func (dec *Decoder) parseResiduals(mb, leftMB *MB, block *MBData, tokenBR *bitio.BoolReader) bool {
 	bands := &dec.proba.BandsPtr
 	q := &dec.dqm[block.Segment&3]
 	dst := block.Coeffs[:]
@@ -427,4 +430,5 @@ func (dec *Decoder) parseResiduals(mb, leftMB *MB, block *MBData, tokenBR *bitio
 	if nonZeroUV&0xaaaa == 0 {
 		block.Dither = uint8(q.Dither)
 	}
+	return nonZeroY|nonZeroUV == 0
 }
